@@ -175,11 +175,6 @@ def make_mc_instance(rng, fam, tier):
     eps = F(1, rng.choice([2, 4, 8]))
     kind = rng.choice(["zero", "tight", "loose", "loose", "const"])
     L = rng.choice([2, 3, 4])
-    if tier == "quick" and n_na >= 3:          # keep the history space of the big ones small
-        L = 2
-        eps = F(1, rng.choice([2, 4]))
-        if kind == "const":
-            kind = "loose"
     if m["rand"]:
         L = rng.choice([2, 3])
     h, kind = heuristic(rng, m, vs, kind, eps)
@@ -195,6 +190,114 @@ def make_mc_instance(rng, fam, tier):
         if z:
             m["i0"][rng.choice(z)] = 1
     return m
+
+
+def machine_size(m, cap):
+    """Number of states of the reference machine on this instance (all histories), or None above `cap`.
+    A plain re-implementation of the actions of spec/C04_LRTDP.tla on integers, used *only* to keep the
+    TLC batches inside the time budget (history spaces are very skewed); it decides nothing."""
+    N, K = m["N"], m["K"]
+    sc, dq, gn, gd, eps, L = 2 ** m["KB"], m["PD"] * m["GD"], m["GN"], m["GD"], m["EPS"], m["L"]
+    ab, P, R = m["abs"], m["P"], m["R"]
+    av = [[a for a in range(K) if m["avail"][s][a]] for s in range(N)]
+    order = [[a - 1 for a in m["aord"][s]] for s in range(N)]
+    ipos = [s for s in range(N) if m["p0"][s] > 0]
+    ilist = [s for s in range(N) if m["i0"][s]]
+
+    def qnum(v, s, a):
+        if ab[s]:
+            return 0
+        return sum(P[s][a][t] * (R[s][a][t] * sc * gd + gn * (0 if ab[t] else v[t])) for t in range(N) if P[s][a][t])
+
+    def exact(v, s):
+        return all(qnum(v, s, a) % dq == 0 for a in av[s])
+
+    def maxq(v, s):
+        return max(qnum(v, s, a) // dq for a in av[s])
+
+    def greedy(v, s):
+        mx = maxq(v, s)
+        return next(a for a in order[s] if qnum(v, s, a) // dq == mx)
+
+    def supp(s, a):
+        return [t for t in range(N) if P[s][a][t] > 0 or (m["zl"] and m["lst"][t])]
+
+    def upd(v, s):
+        v = list(v)
+        v[s] = maxq(v, s)
+        return tuple(v)
+
+    mult = 1
+    if m["rand"]:
+        for s in range(N):
+            mult *= math.factorial(len(av[s]))
+    start = (tuple(m["h"]), frozenset(), (), "idle")
+    seen = {start}
+    todo = [start]
+    while todo:
+        if len(seen) * mult > cap:
+            return None
+        v, solved, stack, pc = todo.pop()
+        nxt = []
+        if pc == "idle":
+            if all(s in solved for s in ilist):
+                continue
+            for s0 in ipos:
+                nxt.append((v, solved, (s0,), "eot" if s0 in solved else "trial"))
+        elif pc == "trial":
+            s = stack[-1]
+            if not exact(v, s):
+                continue
+            v1 = upd(v, s)
+            if not exact(v1, s):
+                continue
+            a = greedy(v1, s)
+            for t in range(N):
+                if P[s][a][t] > 0:
+                    sv = solved | {t} if ab[t] else solved
+                    stop = len(stack) + 1 > L or t in solved or ab[t]
+                    nxt.append((v1, sv, stack + (t,), "eot" if stop else "trial"))
+        elif pc == "eot":
+            nxt.append((v, solved, stack, "check"))
+        else:
+            s, rest = stack[-1], stack[:-1]
+            opn = [] if s in solved else [s]
+            closed, flag, ok = [], True, True
+            while opn:
+                x = opn.pop()
+                closed.append(x)
+                if not exact(v, x):
+                    ok = False
+                    break
+                a = greedy(v, x)
+                if abs(v[x] - qnum(v, x, a) // dq) > eps:
+                    flag = False
+                else:
+                    for t in supp(x, a):
+                        if t not in solved and t not in opn and t not in closed:
+                            opn.append(t)
+            if not ok:
+                continue
+            if flag:
+                sv, v1 = solved | set(closed), v
+            else:
+                sv, v1 = solved, v
+                for x in reversed(closed):
+                    if not exact(v1, x):
+                        ok = False
+                        break
+                    v1 = upd(v1, x)
+                if not ok:
+                    continue
+            if flag and rest:
+                nxt.append((v1, frozenset(sv), rest, "check"))
+            else:
+                nxt.append((v1, frozenset(sv), (), "idle"))
+        for st in nxt:
+            if st not in seen:
+                seen.add(st)
+                todo.append(st)
+    return len(seen) * mult
 
 
 # =============================================================================================
@@ -833,12 +936,23 @@ CORNER_D3 = {"N": 4, "K": 3, "PD": 2, "GN": 1, "GD": 1, "ID": 4, "abs": [0, 0, 1
              "i0": [1, 0, 0, 0], "oracle": 1, "mode": "mc"}
 
 
-def make_mc_batch(rng, n, tier, corner=False):
+def make_mc_batch(rng, n, tier, corner=False, budget=None, cap=None, ctx=None):
+    """n instances whose machines have at most `cap` states each and about `budget` states together."""
+    cap = cap or (1500 if tier == "quick" else 6000)
+    budget = budget or (n * 225 if tier == "quick" else n * 500)
     batch = [dict(CORNER_D3)] if corner else []
-    while len(batch) < n:
+    total = 0
+    while len(batch) < n and total < budget:
         m = make_mc_instance(rng, FAMS_MC[len(batch) % len(FAMS_MC)], tier)
-        if m is not None:
-            batch.append(m)
+        if m is None:
+            continue
+        size = machine_size(m, cap)
+        if size is None:
+            if ctx is not None:
+                ctx.skip(f"instance whose history space exceeds {cap} machine states (not model checked)")
+            continue
+        total += size
+        batch.append(m)
     return batch
 
 
@@ -853,11 +967,11 @@ def run(ctx):
         "float comparisons of the judged clauses use 1e-9 relative slack on top of margin * N^pi",
         "termination of a free run is judged against an iteration cap of 4000 trials (instances have <= 5 states)",
     ]
-    n_mc, n_free = (140, 500) if ctx.tier == "quick" else (600, 4000)
+    n_mc, n_free = (200, 500) if ctx.tier == "quick" else (900, 4000)
     chunk = 300
     left = n_mc
     while left > 0:
-        batch = make_mc_batch(rng, min(chunk, left), ctx.tier, corner=(left == n_mc))
+        batch = make_mc_batch(rng, min(chunk, left), ctx.tier, corner=(left == n_mc), ctx=ctx)
         reps = [dict(REPS[rng.randrange(len(REPS))]) for _ in batch]
         pipeline_mc(ctx, batch, reps)
         left -= chunk
